@@ -169,6 +169,7 @@ impl Clone for Tr {
         });
         let bad = BAD_CLONE.with(|b| *b.borrow() == Some(k));
         if bad {
+            log(format!("l{}:{}", k, self.id));
             log(format!("panic:{}", k));
             panic!("inject:clone:{}", k);
         }
